@@ -95,6 +95,9 @@ G0 == [role |-> "", ver |-> "", idw |-> 16,
        inUn |-> {},                       \* inbound QoS>0 ids not yet answered on this connection (C12e)
        peerRM |-> 0, ownRM |-> 0, peerTAM |-> 0, ownTAM |-> 0, peerMPS |-> NoLimit, ownMPS |-> NoLimit,
        rx |-> {}, aliasIn |-> {},         \* [a, t]: the receiver's table of what we sent / of what we received
+       dropped |-> {},                    \* ids whose stored packet the library dropped as oversize when this connection was
+                                          \* (re)established - no clause reads it; it keeps "a PUBREL was dropped here" apart
+                                          \* from "nothing was pending" in the model's state so that BOTH are continued
        twinOff |-> FALSE,                 \* the checked_send twin has diverged on this history (reported once, then ignored)
        aliasHist |-> {},                  \* every inbound binding [a, t] made on this connection - no clause reads it; it keeps
                                           \* "bound to t2, then re-bound to t1" apart from "bound to t1" in the model's state, so
@@ -249,6 +252,9 @@ GhostStep(g, prev, r) ==
                 ELSE IF ConnackSentOk(r) /\ p.mps >= 0 THEN p.mps ELSE @,
      !.rx = RxAfter(rx0, out, 1),
      !.aliasIn = ai1,
+     \* the same for exchanges the application abandoned with erase_stored_publish (history only)
+     !.dropped = IF op = "erase" /\ rel # {} THEN { << x, AwaitOf(g, x) >> : x \in rel } ELSE      \* (the last one only)
+                 IF isConn THEN {} ELSE IF HandshakeDone(r) THEN @ \cup { << x, AwaitOf(g, x) >> : x \in RelSet(out) } ELSE @,
      !.aliasHist = IF isConn \/ op \in {"closed", "crash"} THEN {}
                    ELSE IF IsRecv(r, {"publish"}) /\ p.topic # "" /\ p.alias # 0 /\ ~HasErr(out) THEN @ \cup { << p.alias, p.topic, p.qos >> } ELSE @,
      !.ka = IF isConn THEN cp.ka ELSE @,
@@ -400,6 +406,11 @@ ViolC08(g, prev, r, g2) ==
            /\ ~( (p.kind = "suback" /\ p.pid \in g.sub) \/ (p.kind = "unsuback" /\ p.pid \in g.unsub)
                  \/ (p.kind \in {"puback", "pubrec", "pubcomp"} /\ AwaitOf(g, p.pid) = p.kind) )
         THEN {"C08c-released-by-wrong-acknowledgement"} ELSE {})
+  \* ... and an acknowledgement that matches no exchange in flight starts nothing on that identifier (no PUBREL / PUBCOMP
+  \* is sent for it): the identifier may by now belong to another exchange
+  \cup (IF ~r.panic /\ IsRecv(r, {"puback", "pubrec", "pubcomp"}) /\ r.call.flag /\ p.pid # 0 /\ g.conn = "connected" /\ p.size <= g.ownMPS
+           /\ AwaitOf(g, p.pid) # p.kind /\ SendsK(r.out, {"pubrel", "pubcomp", "puback", "pubrec"}) # <<>>
+        THEN {"C08c-unmatched-acknowledgement-acted-upon"} ELSE {})
   \* "never leaked": a send that reports nothing, transmits nothing and stores nothing must not keep the identifier it
   \* carried - nothing will ever complete (or release) that exchange
   \cup (IF Op(r) = "send" /\ Opens(p) /\ ~r.panic /\ ~HasErr(r.out) /\ SendsK(r.out, {p.kind}) = <<>> /\ p.pid \in before
@@ -536,6 +547,11 @@ ViolC15(g, prev, r, g2) ==
   \cup (IF ~r.panic /\ ~g2.client /\ g2.conn \in {"connecting", "connected"} /\
            \E i \in DOMAIN r.out : r.out[i].ev = "timer_reset" /\ r.out[i].k = "pingreq_recv" /\ (rt = 0 \/ r.out[i].ms # rt)
         THEN {"C15e-receive-timeout-value"} ELSE {})
+  \* the receive timer is the SERVER's timer: an endpoint that is the client of this connection never arms it (an Any-role
+  \* object may have been a server on the previous connection)
+  \cup (IF ~r.panic /\ g2.client /\ g2.conn \in {"connecting", "connected"} /\
+           \E i \in DOMAIN r.out : r.out[i].ev = "timer_reset" /\ r.out[i].k = "pingreq_recv"
+        THEN {"C15e-client-arms-receive-timer"} ELSE {})
   \cup (IF ~r.panic /\ SendsK(r.out, {"pingreq"}) # <<>> /\ (g2.respTimeout > 0) # HasReset(r.out, "pingresp_recv", g2.respTimeout)
         THEN {"C15f-response-timer"} ELSE {})
   \cup (IF ~r.panic /\ HasResetK(r.out, "pingresp_recv") /\ (SendsK(r.out, {"pingreq"}) = <<>> \/ g2.respTimeout = 0)
@@ -646,7 +662,10 @@ ViolC11d(g, r) ==
 ViolC10(g, prev, r, g2) ==
   LET (* a new session has started on this connection, or this very call is the CONNECT that asks for one
          (compared even when the reused object refuses it) *)
-      fresh == r.shadow = "fresh" /\ (g2.newSess \/ ((IsSend(r, {"connect"}) \/ (IsRecv(r, {"connect"}) /\ r.call.flag)) /\ CP(r).clean))
+      fresh == \/ r.shadow = "fresh" /\ (g2.newSess \/ ((IsSend(r, {"connect"}) \/ (IsRecv(r, {"connect"}) /\ r.call.flag)) /\ CP(r).clean))
+               \* the fresh object was given the session: compared at every step of the connections that follow (a CONNECT
+               \* that is refused establishes nothing - in particular not the fresh object's "keep the session" flag)
+               \/ (r.shadow = "resumed" /\ (g.conn # "disc" \/ g2.conn # "disc"))
   IN
   (IF fresh /\ ~r.panic /\ ~SameEvents(r.out, r.outF)
    THEN {"C10-reused-object-differs-from-fresh"} ELSE {})
